@@ -75,6 +75,8 @@ type FV struct {
 	implUsed map[string]types.Type // interface name -> type
 	sliceElems map[string]string
 	guardsOK   int
+	typeFactsCache string
+	typeFactsDone  bool
 	freeVarEntry map[string]Term
 	entryScript *Node
 	vacuous    bool
